@@ -92,12 +92,75 @@ Behaviour(c) ==
                               [op |-> "qtable", h |-> 1, h2 |-> 10 + k, dim |-> 3, props |-> <<PT, PC(1), PTag>>,
                                rows |-> [j \in 1..Cardinality(far) |-> Row(SetToSeq(far)[j])]] >>])]
 
-VARIABLE cfg
-Init == cfg \in Config
+(***************************************************************************)
+(* Geometry family: the sections also override the segment table.  A        *)
+(* vertical (dip 90) line feature with two segments; segment 1 is painted   *)
+(* 500 K, segment 2 900 K.  Per coordinate: lengths <<L1, L2>> (L1 may be   *)
+(* zero: a placeholder segment) and thickness T, or no entry (the default   *)
+(* 100 / 100 / 100 km).  With dip 90 the distance along the surface is the  *)
+(* depth, so which segment a point is in, and where the feature ends, show  *)
+(* the interpolated lengths; the offset from the plane shows the thickness. *)
+(* Prop: between coordinates k and k+1 every interpolated quantity lies     *)
+(* between the two sections' values; at (and within 1 km of) a coordinate   *)
+(* it is that section's own value (margins of 3 km absorb the unknown       *)
+(* interpolation weight).                                                   *)
+(***************************************************************************)
+GeoOpt == {[present |-> FALSE, l1 |-> 100, l2 |-> 100, t |-> 100]} \cup [present : {TRUE}, l1 : {0, 50, 100}, l2 : {50, 100}, t : {50, 100}]
+GeoConfig == [kind : Kinds, g : [0..2 -> GeoOpt]]
+GeoSeg(len, t, temp) == Segment(len * Km, <<t * Km>>, <<0>>, <<90>>) @@ ("temperature models" :> TM(temp))
+GeoEntry(c, k) == ("coordinate" :> k) @@ ("segments" :> <<GeoSeg(c.g[k].l1, c.g[k].t, 500), GeoSeg(c.g[k].l2, c.g[k].t, 900)>>)
+GeoPresent(c) == {k \in 0..2 : c.g[k].present}
+GeoDoc(c) ==
+  LET entries == [i \in 1..Cardinality(GeoPresent(c)) |-> GeoEntry(c, SetToSeq(GeoPresent(c))[i])]
+      feat == Line(c.kind, "line", <<<<0, 0>>, <<0, 300 * Km>>, <<0, 600 * Km>>>>, <<500 * Km, 300 * Km>>, 0, 1000 * Km,
+                   <<GeoSeg(100, 100, 500), GeoSeg(100, 100, 900)>>, <<>>, <<>>, <<>>, <<>>)
+  IN World(Cartesian, <<feat @@ (IF entries = <<>> THEN <<>> ELSE ("sections" :> entries))>>)
+      @@ ("thermal expansion coefficient" :> 0) @@ ("potential mantle temperature" :> 1600)
+
+Lo2(a, b) == IF a < b THEN a ELSE b
+Hi2(a, b) == IF a > b THEN a ELSE b
+(* positions along the trench: <<y km, k, k2>>: the point lies between coordinates k and k2 (k = k2: at / within 1 km of coordinate k) *)
+GeoYs == << <<1, 0, 0>>, <<150, 0, 1>>, <<299, 1, 1>>, <<300, 1, 1>>, <<301, 1, 1>>, <<450, 1, 2>>, <<599, 2, 2>> >>
+(* expected temperature at depth z km for a point between k and k2: 500 in segment 1, 900 in segment 2, 1600 outside, -1 = not asserted *)
+GeoT(c, k, k2, z) ==
+  LET l1lo == Lo2(c.g[k].l1, c.g[k2].l1)  l1hi == Hi2(c.g[k].l1, c.g[k2].l1)
+      tlo == Lo2(c.g[k].l1 + c.g[k].l2, c.g[k2].l1 + c.g[k2].l2)  thi == Hi2(c.g[k].l1 + c.g[k].l2, c.g[k2].l1 + c.g[k2].l2)
+  IN IF z + 3 <= l1lo THEN 500
+     ELSE IF z - 3 >= l1hi /\ z + 3 <= tlo THEN 900
+     ELSE IF z - 3 >= thi THEN 1600
+     ELSE -1
+(* offsets from the plane (km) and whether a point at that offset (and 20 km depth, inside segment 1 or 2) is in the feature *)
+GeoIn(c, k, k2, d) ==
+  LET lo == Lo2(c.g[k].t, c.g[k2].t)  hi == Hi2(c.g[k].t, c.g[k2].t)
+      half == c.kind = "fault"
+  IN IF (IF half THEN 2 * d + 6 <= lo ELSE d + 3 <= lo) THEN 1
+     ELSE IF (IF half THEN 2 * d - 6 >= hi ELSE d - 3 >= hi) THEN 0 ELSE -1
+GeoRows(c) ==
+  LET ps == SetToSeq((1..Len(GeoYs)) \X {2, 20, 45, 60, 95, 110, 145, 160, 195, 210})
+      row(i, z) == LET y == GeoYs[i] t == GeoT(c, y[2], y[3], z) IN
+                   <<-10 * Km, y[1] * Km, HM - z * Km, z * Km, IF t < 0 THEN [null |-> TRUE] ELSE t>>
+  IN [j \in 1..Len(ps) |-> row(ps[j][1], ps[j][2])]
+GeoThickRows(c) ==
+  LET ps == SetToSeq((1..Len(GeoYs)) \X {10, 30, 60, 110})
+      (* probes at 40 km depth: inside the feature's length unless both neighbouring tables are shorter *)
+      row(i, d) == LET y == GeoYs[i] m == GeoIn(c, y[2], y[3], d)
+                       deepenough == Lo2(c.g[y[2]].l1 + c.g[y[2]].l2, c.g[y[3]].l1 + c.g[y[3]].l2) >= 50
+                   IN <<(0 - d) * Km, y[1] * Km, HM - 40 * Km, 40 * Km, IF m < 0 \/ ~deepenough THEN [null |-> TRUE] ELSE m>>
+  IN [j \in 1..Len(ps) |-> row(ps[j][1], ps[j][2])]
+GeoBehaviour(c) ==
+  [id |-> <<"section-geometry", c>>, labels |-> <<"sections", "geometry", c.kind>>,
+   steps |-> << [op |-> "create", h |-> 1, wb |-> GeoDoc(c)],
+                [op |-> "qtable", h |-> 1, dim |-> 3, props |-> <<PT>>, checks |-> <<[k |-> "eq", at |-> 0, col |-> 4]>>, rows |-> GeoRows(c)],
+                [op |-> "qtable", h |-> 1, dim |-> 3, props |-> <<PTag>>,
+                 checks |-> <<[k |-> "tagname", at |-> 0, col |-> 4, names |-> <<FALSE, c.kind>>]>>, rows |-> GeoThickRows(c)] >>]
+
+VARIABLES cfg
+Init == cfg \in Config \cup GeoConfig
 Next == UNCHANGED cfg
 (* the oracle's own locality: the resolved values of the other coordinates do not depend on the entry of coordinate k *)
-LocalityOK == \A k \in 0..2 : \A j \in (0..2) \ {k} :
+IsGeo == "g" \in DOMAIN cfg
+LocalityOK == IsGeo \/ \A k \in 0..2 : \A j \in (0..2) \ {k} :
                  LET d == [cfg EXCEPT !.sec[k] = [present |-> FALSE, t |-> "inherit", c |-> "inherit"]]
                  IN ResT(d, j) = ResT(cfg, j) /\ ResC(d, j) = ResC(cfg, j)
-Emit == PrintT(<<"B", ToJson(Behaviour(cfg))>>)
+Emit == PrintT(<<"B", ToJson(IF IsGeo THEN GeoBehaviour(cfg) ELSE Behaviour(cfg))>>)
 =============================================================================
